@@ -334,6 +334,7 @@ fn sat_merge(a: &[u64; 16], b: &[u64; 16]) -> [u64; 16] {
 //@ bound: a 128-sample block (finest order 1: 2 partitions of 64) with warm-up 0; the two per-partition cost tables are ARBITRARY (every lane in 4..=2^28-1), every max parameter 0..=14
 //@ asserts: the returned code_bits is the minimum over orders 1 and 0 of the sum of per-partition minima of the (saturating-)merged tables; the returned order attains it; exactly 2^order parameters are returned, each admissible and attaining its partition's minimum
 //@ stubs: PrcBitTable::from_errors -> the arbitrary tables (its contract is c13_l1_*); the sample values are then irrelevant (zeros)
+//@ oracle: c13_oracle_bruteforce_optimality
 #[kani::proof]
 #[kani::unwind(132)]
 #[kani::stub(super::PrcBitTable::from_errors, from_errors_stub)]
@@ -387,6 +388,7 @@ fn c13_l7_find_searches_all_orders() {
 //@ bound: a 256-sample block (finest order 2: 4 partitions of 64) with warm-up 0; the four per-partition cost tables are ARBITRARY (every lane in 4..=2^28-1), every max parameter 0..=14
 //@ asserts: code_bits is the minimum over orders 2, 1 and 0 (the cost need not be monotone in the order: a coarser order may win after a finer one lost); the returned order attains it and 2^order parameters are returned
 //@ stubs: PrcBitTable::from_errors -> the arbitrary tables
+//@ oracle: c13_oracle_bruteforce_optimality
 #[kani::proof]
 #[kani::unwind(260)]
 #[kani::stub(super::PrcBitTable::from_errors, from_errors_stub)]
